@@ -48,6 +48,49 @@ fn impl_facts_inner(tcx: TyCtxt<'_>) -> J {
 	J::Arr(out)
 }
 
+/// Crate-local traits with, per method, its where-clauses (own predicates) and return type, so that a
+/// private trait can be recognised by the shape of its methods rather than by its name.
+pub fn trait_facts(tcx: TyCtxt<'_>) -> J {
+	ty::print::with_no_trimmed_paths!(trait_facts_inner(tcx))
+}
+
+fn trait_facts_inner(tcx: TyCtxt<'_>) -> J {
+	let mut out = vec![];
+	for ldid in tcx.hir_crate_items(()).definitions() {
+		let did = ldid.to_def_id();
+		if !matches!(tcx.def_kind(did), DefKind::Trait) {
+			continue;
+		}
+		let mut o = J::obj();
+		o.put("path", J::s(path(tcx, did)));
+		o.put("span", span_j(tcx, tcx.def_span(did)));
+		let mut items = vec![];
+		for it in tcx.associated_items(did).in_definition_order() {
+			let mut io = J::obj()
+				.set("name", J::s(it.name().to_string()))
+				.set("def", J::s(path(tcx, it.def_id)))
+				.set("kind", J::s(format!("{:?}", it.kind).chars().take(24).collect::<String>()));
+			if matches!(tcx.def_kind(it.def_id), DefKind::AssocFn) {
+				let preds: Vec<J> = tcx
+					.predicates_of(it.def_id)
+					.predicates
+					.iter()
+					.map(|(c, _)| J::s(format!("{c}")))
+					.collect();
+				io.put("predicates", J::Arr(preds));
+				let sig = tcx.fn_sig(it.def_id).instantiate_identity().skip_norm_wip().skip_binder();
+				io.put("ret_ty", J::s(ty_str(sig.output())));
+				io.put("n_inputs", J::Int(sig.inputs().len() as i128));
+				io.put("n_type_params", J::Int(tcx.generics_of(it.def_id).own_params.iter().filter(|p| matches!(p.kind, ty::GenericParamDefKind::Type { .. })).count() as i128));
+			}
+			items.push(io);
+		}
+		o.put("items", J::Arr(items));
+		out.push(o);
+	}
+	J::Arr(out)
+}
+
 pub fn const_facts(tcx: TyCtxt<'_>) -> J {
 	ty::print::with_no_trimmed_paths!(const_facts_inner(tcx))
 }
